@@ -254,7 +254,15 @@ pub enum Op {
     CreateKs { name: u8, cfg: KsCfg },
     DeleteKs { ks: u16, keep_handle: bool },
     /// write through a stale (deleted) keyspace handle
-    StaleWrite { i: u16, k: B, v: Option<B> },
+    StaleWrite {
+        i: u16,
+        k: B,
+        v: Option<B>,
+        /// false: direct insert/remove (must be refused); true: as the only item of a write batch /
+        /// write transaction (may be accepted or refused, must never reach a live keyspace)
+        #[serde(default)]
+        batch: bool,
+    },
     StaleDrop { i: u16 },
     Reopen { alt: u8 },
     /// audit everything now
